@@ -60,6 +60,10 @@ MUTANTS = [
     ("d0: Equal counts as Worse", BMCA, "Ordering::Equal => MessageComparison::Same,", "Ordering::Equal => MessageComparison::Worse(best),", "break"),
     ("d0: Less and Greater swapped", BMCA, "Ordering::Less => MessageComparison::Worse(best),\n                    Ordering::Equal => MessageComparison::Same,\n                    Ordering::Greater => MessageComparison::Better,",
      "Ordering::Greater => MessageComparison::Worse(best),\n                    Ordering::Equal => MessageComparison::Same,\n                    Ordering::Less => MessageComparison::Better,", "break"),
+    ("best: tie-break prefers the older message", BMCA, "let tie_break = other.age.cmp(&self.age);", "let tie_break = self.age.cmp(&other.age);", "break"),
+    ("best: compare_dataset operands swapped", BMCA, "data1.compare(&data2)", "data2.compare(&data1)", "break"),
+    ("best: tie-break consulted first", BMCA, "self.compare_dataset(other).as_ordering().then(tie_break)", "tie_break.then(self.compare_dataset(other).as_ordering())", "break"),
+    ("best: minimum instead of maximum", BMCA, ".max_by(BestAnnounceMessage::compare)", ".min_by(BestAnnounceMessage::compare)", "break"),
     ("announce: leap flags crossed", MSG, "leap59: time_properties_ds.leap_indicator == LeapIndicator::Leap59,\n            leap61: time_properties_ds.leap_indicator == LeapIndicator::Leap61,",
      "leap59: time_properties_ds.leap_indicator == LeapIndicator::Leap61,\n            leap61: time_properties_ds.leap_indicator == LeapIndicator::Leap59,", "break"),
     ("announce: traceable flags crossed", MSG, "time_tracable: time_properties_ds.time_traceable,\n            frequency_tracable: time_properties_ds.frequency_traceable,",
@@ -70,6 +74,13 @@ MUTANTS = [
      "            ptp_timescale: time_properties_ds.ptp_timescale,\n            two_step_flag: true,\n            time_tracable", "break"),
     ("announce: body fields re-ordered (same meaning)", MSG, "            grandmaster_priority_2: global.parent_ds.grandmaster_priority_2,\n            grandmaster_identity: global.parent_ds.grandmaster_identity,",
      "            grandmaster_identity: global.parent_ds.grandmaster_identity,\n            grandmaster_priority_2: global.parent_ds.grandmaster_priority_2,", "hold"),
+    ("time_properties: leap flags crossed", "statime/src/datastructures/messages/announce.rs", "let leap_indicator = if self.header.leap59 {\n            LeapIndicator::Leap59\n        } else if self.header.leap61 {\n            LeapIndicator::Leap61",
+     "let leap_indicator = if self.header.leap59 {\n            LeapIndicator::Leap61\n        } else if self.header.leap61 {\n            LeapIndicator::Leap59", "break"),
+    ("time_properties: leap61 tested first (differs when both flags are set)", "statime/src/datastructures/messages/announce.rs", "let leap_indicator = if self.header.leap59 {\n            LeapIndicator::Leap59\n        } else if self.header.leap61 {\n            LeapIndicator::Leap61",
+     "let leap_indicator = if self.header.leap61 {\n            LeapIndicator::Leap61\n        } else if self.header.leap59 {\n            LeapIndicator::Leap59", "break"),
+    ("time_properties: utc offset guarded by the timescale flag", "statime/src/datastructures/messages/announce.rs", "            .current_utc_offset_valid\n", "            .ptp_timescale\n", "break"),
+    ("time_properties: traceable flags crossed", "statime/src/datastructures/messages/announce.rs", "time_traceable: self.header.time_tracable,\n            frequency_traceable: self.header.frequency_tracable,",
+     "time_traceable: self.header.frequency_tracable,\n            frequency_traceable: self.header.time_tracable,", "break"),
     ("base_header: domain from sdo id (not recognised: degrades, left to the streams)", MSG, "domain_number: default_ds.domain_number,", "domain_number: default_ds.sdo_id.0 as u8,", "degrade"),
 ]
 
@@ -79,8 +90,8 @@ COMPLETE = """
 open Statime in
 example : Generated.cmpDispatch.isSome ∧ Generated.figure35Arms.isSome ∧ Generated.figure34Chain.isSome ∧
     Generated.figure34Arms.isSome ∧ Generated.asOrderingTable.isSome ∧ Generated.ofAnnounceTable.isSome ∧
-    Generated.ofOwnTable.isSome ∧ Generated.accuracyComparedByOctet = some true ∧ Generated.decisionTable.isSome ∧
-    Generated.announceFlagTable.isSome ∧ Generated.announceBodyTable.isSome ∧
+    Generated.ofOwnTable.isSome ∧ Generated.accuracyComparedByOctet = some true ∧ Generated.decisionTable.isSome ∧ Generated.bestCompareTable.isSome ∧ Generated.findBestIsMaxBy = some true ∧
+    Generated.announceFlagTable.isSome ∧ Generated.announceBodyTable.isSome ∧ Generated.timePropertiesTable.isSome ∧
     Generated.announceBaseHeaderAsModelled = some true := by decide
 """
 
